@@ -10,5 +10,7 @@ CONSTANTS
   RoutesFirst = TRUE
   EmptyMeansAll = FALSE
   StatusSucceeds = FALSE
+  AliasCallerSet = FALSE
+  MemoDecision = FALSE
   StarWithCreds = FALSE
 INVARIANT Sound
